@@ -48,10 +48,14 @@ def _cache_get(key):
 def _cache_put(key, val):
     d = os.path.join(CACHE_DIR, key[:2])
     os.makedirs(d, exist_ok=True)
-    tmp = os.path.join(d, key + f".{os.getpid()}.tmp")
-    with open(tmp, "w") as fh:
-        json.dump(val, fh)
-    os.replace(tmp, os.path.join(d, key + ".json"))
+    import threading
+    tmp = os.path.join(d, key + f".{os.getpid()}.{threading.get_ident()}.tmp")
+    try:
+        with open(tmp, "w") as fh:
+            json.dump(val, fh)
+        os.replace(tmp, os.path.join(d, key + ".json"))
+    except OSError:
+        pass
 
 
 def model_text(model, limit=6000):
